@@ -31,6 +31,13 @@ pub struct Plan {
     /// also exercise `install()` failing because a global recorder already exists
     #[serde(default)]
     pub install_fails: bool,
+    /// metric handles obtained through the wrapper are retained until the end of the run
+    #[serde(default)]
+    pub keep_handles: bool,
+    /// the wrapper is installed as the global recorder with the real `install()` and emissions go
+    /// through `metrics::with_recorder` (otherwise the wrapper is built stand-alone)
+    #[serde(default)]
+    pub via_install: bool,
 }
 
 #[derive(Clone, Debug)]
@@ -71,13 +78,11 @@ impl Scenario for C20Recoverable {
                 _ => Em::DescHistogram,
             }).collect());
         }
-        Plan { emitters, recover: r.chance(700), delay: r.below(4) as u32, install_fails: r.chance(300) }
+        Plan { emitters, recover: r.chance(700), delay: r.below(4) as u32, install_fails: r.chance(300), keep_handles: r.chance(300), via_install: r.chance(400) }
     }
     fn execute(&self, plan: &Plan, sched: &SchedSpec) -> RunReport {
-        static GLOBAL: std::sync::OnceLock<bool> = std::sync::OnceLock::new();
-        if plan.install_fails {
-            GLOBAL.get_or_init(|| metrics::set_global_recorder(metrics::NoopRecorder).is_ok());
-        }
+        // one run = one process life as far as the global recorder cell is concerned
+        metrics::__verif_reset_global_recorder();
         let log = new_log();
         let shared = Shared::new(log.clone());
         shared.yield_inside.store(true, Ordering::SeqCst);
@@ -88,16 +93,34 @@ impl Scenario for C20Recoverable {
         let (sh2, ev2, rc2, log2) = (shared.clone(), evs.clone(), recov.clone(), log.clone());
         let sim = simulate(sched, 40_000, move || {
             let rec = LogRecorder::new(7, sh2.clone());
-            let (wrapped, handle) = RecoverableRecorder::new(rec).__verif_build();
-            let wrapped: Arc<dyn Recorder + Send + Sync> = Arc::new(wrapped);
+            let (wrapped, handle): (Option<Arc<dyn Recorder + Send + Sync>>, _) = if p.via_install {
+                match RecoverableRecorder::new(rec).install() {
+                    Ok(h) => (None, h),
+                    Err(_) => panic!("install() failed although no global recorder was installed"),
+                }
+            } else {
+                let (w, h) = RecoverableRecorder::new(rec).__verif_build();
+                (Some(Arc::new(w) as Arc<dyn Recorder + Send + Sync>), h)
+            };
+            let kept: Arc<Mutex<Vec<Box<dyn std::any::Any + Send>>>> = Arc::new(Mutex::new(vec![]));
             let mut hs = vec![];
             for (i, ems) in p.emitters.iter().enumerate() {
                 let ems = ems.clone();
                 let wrapped = wrapped.clone();
                 let evs = ev2.clone();
                 let log = log2.clone();
+                let kept = kept.clone();
+                let keep = p.keep_handles;
                 hs.push(dsim::spawn(&format!("emitter{}", i + 1), move || {
                     let tid = dsim::tid();
+                    // the recorder as the emitter sees it: the stand-alone wrapper, or whatever the
+                    // facade dispatches to
+                    fn with<T>(w: &Option<Arc<dyn Recorder + Send + Sync>>, f: impl FnOnce(&dyn Recorder) -> T) -> T {
+                        match w {
+                            Some(w) => f(&**w),
+                            None => metrics::with_recorder(|r| f(r)),
+                        }
+                    }
                     for em in ems {
                         dsim::point("c20.emit");
                         let inv = dsim::step();
@@ -105,26 +128,35 @@ impl Scenario for C20Recoverable {
                         let mut live = false;
                         match em {
                             Em::RegCounter => {
-                                let h = wrapped.register_counter(&key, &MD);
+                                let h = with(&wrapped, |r| r.register_counter(&key, &MD));
                                 let n0 = log.lock().unwrap().len();
                                 h.increment(1);
                                 live = log.lock().unwrap().len() > n0;
+                                if keep {
+                                    kept.lock().unwrap().push(Box::new(h));
+                                }
                             }
                             Em::RegGauge => {
-                                let h = wrapped.register_gauge(&key, &MD);
+                                let h = with(&wrapped, |r| r.register_gauge(&key, &MD));
                                 let n0 = log.lock().unwrap().len();
                                 h.set(1.0);
                                 live = log.lock().unwrap().len() > n0;
+                                if keep {
+                                    kept.lock().unwrap().push(Box::new(h));
+                                }
                             }
                             Em::RegHistogram => {
-                                let h = wrapped.register_histogram(&key, &MD);
+                                let h = with(&wrapped, |r| r.register_histogram(&key, &MD));
                                 let n0 = log.lock().unwrap().len();
                                 h.record(1.0);
                                 live = log.lock().unwrap().len() > n0;
+                                if keep {
+                                    kept.lock().unwrap().push(Box::new(h));
+                                }
                             }
-                            Em::DescCounter => wrapped.describe_counter(KeyName::from_const_str("c20_metric"), None, "d".into()),
-                            Em::DescGauge => wrapped.describe_gauge(KeyName::from_const_str("c20_metric"), None, "d".into()),
-                            Em::DescHistogram => wrapped.describe_histogram(KeyName::from_const_str("c20_metric"), None, "d".into()),
+                            Em::DescCounter => with(&wrapped, |r| r.describe_counter(KeyName::from_const_str("c20_metric"), None, "d".into())),
+                            Em::DescGauge => with(&wrapped, |r| r.describe_gauge(KeyName::from_const_str("c20_metric"), None, "d".into())),
+                            Em::DescHistogram => with(&wrapped, |r| r.describe_histogram(KeyName::from_const_str("c20_metric"), None, "d".into())),
                         }
                         let ret = dsim::step();
                         let l = log.lock().unwrap();
@@ -161,9 +193,13 @@ impl Scenario for C20Recoverable {
             for h in hs {
                 h.join();
             }
+            kept.lock().unwrap().clear();
             drop(wrapped);
             if p.install_fails {
-                // a global recorder already exists in this worker process (installed below, once)
+                // a global recorder already exists: the wrapper installed above, or a no-op one now
+                if !p.via_install {
+                    let _ = metrics::set_global_recorder(metrics::NoopRecorder);
+                }
                 let sh9 = Shared::new(log2.clone());
                 let res = RecoverableRecorder::new(LogRecorder::new(9, sh9.clone())).install();
                 let verdict = match res {
@@ -189,6 +225,7 @@ impl Scenario for C20Recoverable {
                 }
             }
         });
+        metrics::__verif_reset_global_recorder();
         let mut rep = RunReport::ok(sim);
         let simr = rep.sim.as_ref().unwrap();
         let evs = evs.lock().unwrap().clone();
@@ -264,6 +301,15 @@ impl Scenario for C20Recoverable {
     }
     fn shrink(&self, p: &Plan) -> Vec<Plan> {
         let mut out = vec![];
+        if p.install_fails {
+            out.push(Plan { install_fails: false, ..p.clone() });
+        }
+        if p.via_install {
+            out.push(Plan { via_install: false, ..p.clone() });
+        }
+        if p.keep_handles {
+            out.push(Plan { keep_handles: false, ..p.clone() });
+        }
         if p.emitters.len() > 1 {
             for i in 0..p.emitters.len() {
                 let mut q = p.clone();
@@ -288,9 +334,9 @@ impl Scenario for C20Recoverable {
         out
     }
     fn real_components(&self) -> Vec<&'static str> {
-        vec!["metrics_util::RecoverableRecorder::{new,build}", "WeakRecorder (all six Recorder methods)", "RecoveryHandle::{into_inner, drop}"]
+        vec!["metrics_util::RecoverableRecorder::{new,build,install}", "WeakRecorder (all six Recorder methods)", "RecoveryHandle::{into_inner, drop}", "metrics::set_global_recorder / with_recorder (in the via_install profile)"]
     }
     fn stub_components(&self) -> Vec<&'static str> {
-        vec!["thread scheduler (dsim)", "wrapped recorder double (counts calls in flight, finalisation flag, drop counter)", "the global recorder cell is only involved in the install-fails step (a no-op global recorder is installed once per worker process)"]
+        vec!["thread scheduler (dsim)", "wrapped recorder double (counts calls in flight, finalisation flag, drop counter)", "the global recorder cell is put back to uninstalled between runs through the guarded hook __verif_reset_global_recorder"]
     }
 }
